@@ -92,6 +92,12 @@ def programs(tier: str):
             for shape in forest_shapes(2):
                 k += 1
                 yield {"forest": label_forest(shape, [list(a), list(b)]), "order": "nd-first" if k % 2 else "d-first"}
+    # ONE prepared ctx.updated(...) object entered twice, one after the other, inside different
+    # enclosing blocks: every use sits on top of the block it is entered in
+    for k1 in ("ascope", "sscope", "updated"):
+        for k2 in ("ascope", "sscope", "updated"):
+            for s1, s2 in ((1, 1), (1, 2), (5, 1), (0, 1)):
+                yield {"forest": [{"l": [k1, s1], "c": [{"l": ["updated", 2, "return", "shared"], "c": []}]}, {"l": [k2, s2], "c": [{"l": ["updated", 2, "return", "shared"], "c": []}]}], "order": "nd-first"}
     # value-equal re-supplies and a type whose default construction fails with an ExceptionGroup
     for sup in (8, 9, 10, 11, 12):
         for kind in KINDS:
@@ -150,6 +156,7 @@ def execute(program, ch: Chooser) -> Result:  # noqa: C901, PLR0915
         pass
 
     rt: dict[int, dict] = {}
+    shared: dict = {}
 
     def build(b):
         kind, sidx = b["l"][0], b["l"][1]
@@ -158,7 +165,8 @@ def execute(program, ch: Chooser) -> Result:  # noqa: C901, PLR0915
             return ctx.scope(r["label"], *r["states"])
         if kind == "updated":
             return ctx.updated(*r["states"])
-        return ctx.scope(r["label"], disposables=disposables_for(r["states"]))
+        # every other disposable-fed scope yields its states as one-shot generators
+        return ctx.scope(r["label"], disposables=disposables_for(r["states"], lazy=int(r["label"][1:]) % 2 == 1))
 
     def prepare(blocks, enclosing_a: str | None = None):
         for b in blocks:
@@ -186,7 +194,19 @@ def execute(program, ch: Chooser) -> Result:  # noqa: C901, PLR0915
             for st, nm in zip(states, names):
                 if nm == "A":
                     inner_a = st.tag
-            if len(b["l"]) > 3 and b["l"][3]:
+            if len(b["l"]) > 3 and b["l"][3] == "shared":
+                # all blocks marked "shared" use one and the same context manager object (and
+                # therefore the same supplied instances)
+                if "cm" not in shared:
+                    shared["cm"] = build(b)
+                    shared["rt"] = rt[id(b)]
+                else:
+                    for st in states:
+                        supplied.pop(id(st), None)
+                    rt[id(b)] = dict(shared["rt"])
+                rt[id(b)]["cm"] = shared["cm"]
+                stats["prep"] = True
+            elif len(b["l"]) > 3 and b["l"][3]:
                 rt[id(b)]["cm"] = build(b)  # built now, entered later
                 stats["prep"] = True
             prepare(b["c"], inner_a)
